@@ -40,7 +40,7 @@ from .values import (
 # ``hints``; their truth is sampled against CPython by tools/crosscheck.py on every run (tested, not proved)
 LEMMA_SCHEMAS = {"strip_padded", "int_padded", "strip_core", "strip_blank", "strip_unique", "index_at", "cut_at", "head_of",
                  "excludes", "int_of_signed", "int_of_digits", "substr_at", "char_at", "chars_at", "nat_shift", "leading_zeros",
-                 "digits_only", "digit_chars", "split_first", "last_of", "strip_noop", "find_in", "rfind_in"}
+                 "digits_only", "digit_chars", "split_first", "last_of", "strip_noop", "find_in", "rfind_in", "char_of_slice"}
 
 
 class Loop:
@@ -567,6 +567,16 @@ def _sb_rfind_in(ex, st, args, kwargs):
     yield st, SV("bool", _find_in(args, True))
 
 
+def _sb_char_of_slice(ex, st, args, kwargs):
+    """char_of_slice(s, lo, n, j): for literal 0 <= j < n and lo >= 0 with lo + n <= len(s): s[lo:lo+n][j] is s[lo+j]."""
+    s, lo, n, j = args
+    if any(is_sym(x) for x in (lo, n, j)) or not (0 <= j < n and lo >= 0):
+        raise Unsupported("char_of_slice needs literal lo >= 0, n, 0 <= j < n")
+    S = bm.sstr(s)
+    yield st, SV("bool", z3.Implies(z3.Length(S) >= lo + n,
+                                    z3.SubString(z3.SubString(S, lo, n), j, 1) == z3.SubString(S, lo + j, 1)))
+
+
 def _sb_digits_only(ex, st, args, kwargs):
     """digits_only(d, ch): a numeral of ASCII digits does not contain the (non-digit) character ch."""
     d, ch = args
@@ -730,7 +740,7 @@ def _sb_py_int_strip(ex, st, args, kwargs):
     yield st, (SV("str", bm.strip_term(bm.sstr(s), "int")) if is_sym(s) else s.strip(" \t\n\x0b\x0c\r"))
 
 
-SPEC_BUILTINS = {"find_in": _sb_find_in, "rfind_in": _sb_rfind_in, "split_first": _sb_split_first, "last_of": _sb_last_of, "strip_noop": _sb_strip_noop, "chars_at": _sb_chars_at, "digit_chars": _sb_digit_chars, "leading_zeros": _sb_leading_zeros, "digits_only": _sb_digits_only, "head_of": _sb_head_of, "py_int": _sb_py_int, "py_int_ok": _sb_py_int_ok, "nat_shift": _sb_nat_shift, "char_at": _sb_char_at, "int_of_digits": _sb_int_of_digits, "substr_at": _sb_substr_at, "strip_core": _sb_strip_core, "cut_at": _sb_cut_at, "excludes": _sb_excludes, "int_padded": _sb_int_padded, "py_int_strip": _sb_py_int_strip, "py_repr": _sb_py_repr, "loops_exhausted": _sb_loops_exhausted, "call_kwarg": _sb_call_kwarg, "some": _sb_some, "index_at": _sb_index_at, "strip_blank": _sb_strip_blank, "pos_of": _sb_pos_of, "call_arg": _sb_call_arg, "unmodified": _sb_unmodified, "uf": _sb_uf, "called": _sb_called, "py_isalpha": _sb_py_isalpha, "py_isdigit": _sb_py_isdigit, "int_of_signed": _sb_int_of_signed, "strip_padded": _sb_strip_padded, "strip_unique": _sb_strip_unique, "py_strip": _sb_py_strip, "pad": _sb_pad, "matches": _sb_matches, "nat": _sb_nat, "key_at": _sb_key_at, "val_at": _sb_val_at,
+SPEC_BUILTINS = {"char_of_slice": _sb_char_of_slice, "find_in": _sb_find_in, "rfind_in": _sb_rfind_in, "split_first": _sb_split_first, "last_of": _sb_last_of, "strip_noop": _sb_strip_noop, "chars_at": _sb_chars_at, "digit_chars": _sb_digit_chars, "leading_zeros": _sb_leading_zeros, "digits_only": _sb_digits_only, "head_of": _sb_head_of, "py_int": _sb_py_int, "py_int_ok": _sb_py_int_ok, "nat_shift": _sb_nat_shift, "char_at": _sb_char_at, "int_of_digits": _sb_int_of_digits, "substr_at": _sb_substr_at, "strip_core": _sb_strip_core, "cut_at": _sb_cut_at, "excludes": _sb_excludes, "int_padded": _sb_int_padded, "py_int_strip": _sb_py_int_strip, "py_repr": _sb_py_repr, "loops_exhausted": _sb_loops_exhausted, "call_kwarg": _sb_call_kwarg, "some": _sb_some, "index_at": _sb_index_at, "strip_blank": _sb_strip_blank, "pos_of": _sb_pos_of, "call_arg": _sb_call_arg, "unmodified": _sb_unmodified, "uf": _sb_uf, "called": _sb_called, "py_isalpha": _sb_py_isalpha, "py_isdigit": _sb_py_isdigit, "int_of_signed": _sb_int_of_signed, "strip_padded": _sb_strip_padded, "strip_unique": _sb_strip_unique, "py_strip": _sb_py_strip, "pad": _sb_pad, "matches": _sb_matches, "nat": _sb_nat, "key_at": _sb_key_at, "val_at": _sb_val_at,
                  "same_dict": _sb_same_dict}
 
 
